@@ -162,6 +162,10 @@ class Interp:
                 raise Unsupported("param pattern")
         body = H.normalize(fn["hir"]) if "_nhir" not in fn else fn["_nhir"]
         fn["_nhir"] = body
+        if "_ahir" not in fn:
+            # distinct locals that macro hygiene spelled alike get distinct spellings (the environment is keyed by spelling)
+            fn["_ahir"] = H.alpha_rename(body)
+        body = fn["_ahir"]
         try:
             return self.ev(body, env, depth)
         except _Return as r:
